@@ -49,6 +49,8 @@ def check(ctx: Ctx, col: Collector, tier: str) -> None:
     col.spec("C20.GUARDS", "a marker is raised exactly when the declaration exhibits the construct",
              "specialisation of the emitters over finite feature partitions, compared with the reference table", floor=60)
     col.spec("C20.RESET", "the pending set is reset at module start", "abstract interpretation of __call__", floor=1)
+    col.spec("C20.DEFAULT-SOURCE", "a default value the analyser does not reproduce reaches the generator as UnknownValue, the only model state the 'unknown value' marker is raised for",
+             "specialisation of _get_parameter_type_and_default_value over all mypy expression classes", floor=2)
 
     table, tnode = marker_table(ctx)
     methods = {q.split(".", 1)[1]: fi for q, fi in gm.functions.items() if q.startswith(GENCLS + ".")}
@@ -474,8 +476,9 @@ def check(ctx: Ctx, col: Collector, tier: str) -> None:
     # (f) multiple inheritance
     cfi = methods["_create_class_string"]
     for label, supers, want in (("two public", ("a.B", "c.D"), {"multiple_inheritance"}), ("one public", ("a.B",), set()),
-                                ("public+private", ("a.B", "c._D"), set()), ("none", (), set())):
-        cobj = Obj("Class", (("is_abstract", Const(False)), ("constructor", Const(None)), ("type_parameters", ListV(())),
+                                ("public+private", ("a.B", "c._D"), set()), ("none", (), set()),
+                                ("abstract, two public", ("abc.ABC", "a.B", "c.D"), {"multiple_inheritance"}), ("abstract, one public", ("abc.ABC", "a.B"), set())):
+        cobj = Obj("Class", (("is_abstract", Const("abc.ABC" in supers)), ("constructor", Const(None)), ("type_parameters", ListV(())),
                              ("name", Sym("C.name")), ("attributes", ListV(())), ("classes", ListV(())), ("methods", ListV(())),
                              ("superclasses", ListV(tuple(Const(x) for x in supers))), ("docstring", Sym("C.docstring"))))
         cit = ctx.interp(cfi, inline={"is_internal"})
@@ -487,4 +490,43 @@ def check(ctx: Ctx, col: Collector, tier: str) -> None:
         else:
             col.bad("C20.GUARDS", key, repo.loc(GEN, cfi.node), f"raised {[sorted(g) for g in got]}, reference {sorted(want)}",
                     f"class with superclasses {supers} raises {[sorted(g) for g in got]}; the property requires {sorted(want)}")
+    # ------------------------------------------------------------------ DEFAULT-SOURCE
+    from ..core.ctx import VISITOR
+    vfi = repo.function(VISITOR, "MyPyAstVisitor._get_parameter_type_and_default_value")
+    col.touched(vfi)
+    vit = ctx.interp(vfi, inline={"mypy_expression_to_python_value"})
+    literal = {"IntExpr", "FloatExpr", "StrExpr"}
+    exprs = [c for c in ctx.lib.subclasses("Expression") if c not in ("Expression", "RefExpr", "TypeVarLikeExpr", "FakeExpression")]
+    dropped, marked, nprobe = [], [], 0
+    for c in exprs:
+        if c in literal:
+            continue
+        if c == "NameExpr":
+            init = Obj("NameExpr", (("name", Const("LIMIT")),))
+        elif c == "UnaryExpr":
+            # an operator applied to something that is no number
+            init = Obj("UnaryExpr", (("expr", Obj("NameExpr", (("name", Const("LIMIT")),))), ("op", Sym("op"))))
+        else:
+            init = Obj(c, ())
+        nprobe += 1
+        outs = vit.run_function(vfi, {"self": Sym("self"), "initializer": init, "function_id": Sym("function_id")})
+        vals = [o.value for o in outs if o.kind == "return"]
+        unknown = bool(vals) and all(isinstance(v, ListV) and len(v.items) == 2 and isinstance(v.items[0], Obj) and v.items[0].cls == "UnknownValue" for v in vals)
+        (marked if unknown else dropped).append(c)
+    if nprobe < 20:
+        raise AnalysisError(f"only {nprobe} expression classes probed for the default-value helper")
+    key = f"{VISITOR}::MyPyAstVisitor._get_parameter_type_and_default_value::unreproduced-default"
+    if dropped:
+        col.bad("C20.DEFAULT-SOURCE", key, repo.loc(VISITOR, vfi.node), f"{len(dropped)} of {nprobe} non-literal initializer classes come back as 'no default': {dropped[:8]}...; as UnknownValue: {marked}",
+                f"a default value that is no literal ({', '.join(dropped[:4])}, ... e.g. `def f(a: int = 1 + 2)`, `= LIMIT`, `= (1, 2)`, `= float('inf')`) comes back from "
+                f"_get_parameter_type_and_default_value as 'no default' instead of UnknownValue: the parameter is emitted as required, without the unknown-value marker, an optional "
+                f"position-only parameter is not flagged and an optional keyword-only one is flagged as required")
+    else:
+        col.ok("C20.DEFAULT-SOURCE", key, repo.loc(VISITOR, vfi.node), f"all {nprobe} non-literal initializer classes yield UnknownValue")
+    # the generator raises the marker for that state (C20.GUARDS default=UnknownValue rows)
+    pfi = methods["_create_parameter_string"]
+    mentions_unknown = any(isinstance(n, ast.Call) and getattr(n.func, "id", "") == "isinstance" and "UnknownValue" in ast.unparse(n) for n in ast.walk(pfi.node))
+    (col.ok if mentions_unknown else col.bad)("C20.DEFAULT-SOURCE", f"{GEN}::{GENCLS}._create_parameter_string::consumes-UnknownValue", repo.loc(GEN, pfi.node),
+                                               "the parameter renderer tests for UnknownValue (rows default=UnknownValue of C20.GUARDS decide the marker)" if mentions_unknown else "no test for UnknownValue",
+                                               *([] if mentions_unknown else ["the parameter renderer never tests for UnknownValue: the unknown-value marker has no source"]))
     col.assume("the text of the messages is out of scope; the markers' identity and placement are decided")
